@@ -120,6 +120,43 @@ def redundant_bypass(index, base, f, call, COMPUTE="_compute"):
     return "undecided", f"no constructor check of {S.name} was recognised that makes every member of {coll} require the transform's own keys"
 
 
+def shape_guards_rule(index, ctx):
+    """R8: the shape validators of the typed dictionaries compare shapes; they do not quantify over the rows of the value (a test
+    `any(row.shape != key.shape for row in value)` is vacuously false for a value with zero rows, whatever its other dimensions)."""
+    ctx.rule("R8", "shape validators of the typed dictionaries decide on the shapes themselves: no raise of theirs is guarded by a quantifier (any / all / loop) over the elements of the "
+                   "validated tensor, which is vacuous for a tensor with a leading dimension of 0")
+    mod = next((m for m in index.modules.values() if m.name.endswith("_transform.tensor_dict")), None)
+    if mod is None:
+        ctx.undecided("R8", "shape validators", "anchor vanished: the tensor_dict module", "")
+        return
+    n = 0
+    for f in index.functions.values():
+        if f.module is not mod:
+            continue
+        raises = [x for x in ast.walk(f.node) if isinstance(x, ast.Raise)]
+        if not raises or not any(isinstance(x, ast.Attribute) and x.attr in ("shape", "ndim") for x in ast.walk(f.node)):
+            continue
+        params = {a.arg for a in f.node.args.args if a.arg not in ("self", "cls")}
+        n += 1
+        bad = None
+        for x in ast.walk(f.node):
+            gens = []
+            if isinstance(x, (ast.GeneratorExp, ast.ListComp, ast.SetComp)):
+                gens = [g.iter for g in x.generators]
+            elif isinstance(x, ast.For):
+                gens = [x.iter]
+            for it in gens:
+                if isinstance(it, ast.Name) and it.id in params and any(isinstance(y, ast.Attribute) and y.attr in ("shape", "ndim") for y in ast.walk(x)):
+                    # iterating the tensor parameter itself (not `.items()` of a dictionary, not `.shape`)
+                    ann = next((a.annotation for a in f.node.args.args if a.arg == it.id), None)
+                    if ann is not None and "Tensor" in ast.unparse(ann) and "dict" not in ast.unparse(ann).lower():
+                        bad = (x, it.id)
+        ctx.require(bad is None, "R8", f"{f.short}: decides on shapes", "compares shape attributes directly",
+                    (f"`{norm_text(bad[0])[:80]}` quantifies over the rows of `{bad[1]}`: for a value whose first dimension is 0 nothing is compared, so a value whose remaining shape "
+                     "contradicts the key's is accepted") if bad else "", f.loc(bad[0]) if bad else f.loc())
+    ctx.floor("shape validators inspected", n, 3)
+
+
 def check(index, ctx):
     ctx.rule("R1", "the key check cannot be bypassed: Transform.__call__ runs input.check_keys_are(self.required_keys) before self._compute on every path; check_keys_are raises ValueError "
              "exactly when the key sets differ (decided under the five relations two symbolic sets can have); no subclass defines __call__; _compute is called nowhere else — except, inside the _compute of a transform, on "
@@ -575,5 +612,6 @@ def check(index, ctx):
         _pipe.common_evidence(ctx, index)
     except AnalysisError as e:
         ctx.undecided("R3", "abstract runs of the real pipelines", str(e), "")
+    shape_guards_rule(index, ctx)
     ctx.analysed(*sorted(I.functions_entered))
     ctx.assumptions.append("symbolic key sets (atoms) denote non-empty, pairwise disjoint sets; algebraic clauses (associativity, commutativity) follow from the extracted constructor rules")
